@@ -32,6 +32,19 @@ FIELDS = ["a", "b", "c", "k1"]
 # --------------------------------------------------------------------------------------------------------------
 
 
+def range_is_map(r) -> bool:
+    """a macro range is a list of element specs, or a map spec ["m", kvs] (the macro then ranges over the keys)"""
+    return isinstance(r, list) and len(r) == 2 and r[0] == "m"
+
+
+def range_elems(r) -> list:
+    return [k for k, _ in r[1]] if range_is_map(r) else r
+
+
+def range_spec(r):
+    return r if range_is_map(r) else ["l", r]
+
+
 def elem_type(specs) -> Any:
     ts = {type_of_val(v) for v in specs}
     return ts.pop() if len(ts) == 1 else "dyn"
@@ -125,7 +138,8 @@ def check(e, env=None) -> Any:
         return "b"
     if k in ("macro", "lmacro"):
         # an empty range has no element to read the variable's type from: the generator declares it (6th field)
-        et = elem_type(e[2]) if e[2] else (tuple(e[5]) if len(e) > 5 and isinstance(e[5], list) else (e[5] if len(e) > 5 else "dyn"))
+        els = range_elems(e[2])
+        et = elem_type(els) if els else (tuple(e[5]) if len(e) > 5 and isinstance(e[5], list) else (e[5] if len(e) > 5 else "dyn"))
         env2 = dict(env)
         env2[e[3]] = et
         bt = check(e[4], env2)
@@ -205,7 +219,8 @@ class Render:
         if k == "has":
             return f"has({self.lit(e[1], e[3])}.{e[2]})"
         if k in ("macro", "lmacro"):
-            return f"{self.lit(['l', e[2]], 'lit')}.{e[1]}({e[3]}, {self.r(e[4])})"
+            via = e[6] if len(e) > 6 else "lit"
+            return f"{self.lit(range_spec(e[2]), via)}.{e[1]}({e[3]}, {self.r(e[4])})"
         if k == "list":
             return "[" + ", ".join(self.r(x) for x in e[1]) + "]"
         if k == "idx":
@@ -235,7 +250,7 @@ def _is_expr(x) -> bool:
 
 KINDS = {"lit", "var", "neg", "bin", "rel", "in", "not", "and", "or", "cond", "conv", "type", "size", "pred", "has", "macro",
          "lmacro", "list", "idx", "get"}
-LEAN_KINDS = KINDS - {"lmacro", "idx", "get", "var"}
+LEAN_KINDS = KINDS - {"idx", "get", "var"}
 
 
 def in_lean_fragment(e) -> bool:
@@ -244,7 +259,7 @@ def in_lean_fragment(e) -> bool:
         return False
     if k in ("lit", "has"):
         return True
-    if k == "macro":
+    if k in ("macro", "lmacro"):
         return in_lean_fragment(subst(e[4], e[3], ["z"]))
     if k == "list":
         return all(in_lean_fragment(x) for x in e[1])
@@ -281,8 +296,13 @@ def tokens(e) -> str:
         cps = [ord(ch) for ch in e[2]]
         return f"has lit {V.tokens(e[1])} {len(cps)}" + "".join(f" {c}" for c in cps)
     if k == "macro":
-        bodies = [subst(e[4], e[3], s) for s in e[2]]
+        bodies = [subst(e[4], e[3], s) for s in range_elems(e[2])]
         return f"mac {MACROS.index(e[1])} {len(bodies)}" + "".join(" " + tokens(b) for b in bodies)
+    if k == "lmacro":
+        els = range_elems(e[2])
+        bodies = [subst(e[4], e[3], s) for s in els]
+        return (f"lmac {1 if e[1] == 'filter' else 0} {len(els)}" + "".join(" " + V.tokens(x) for x in els)
+                + "".join(" " + tokens(b) for b in bodies))
     if k == "list":
         return f"list {len(e[1])}" + "".join(" " + tokens(x) for x in e[1])
     raise ValueError(e)
@@ -539,6 +559,55 @@ class Gen:
         return self.expr(t, d)
 
 
+def macro_family(rng: random.Random, quick: bool) -> List[list]:
+    """boolean macros and map/filter over list AND map ranges with a controlled number of matching elements
+    (0, 1, 2, 3 of 3, and the empty range), predicates that keep everything / nothing, each at the root and under
+    `!`, `?:`, `&&`, `||`; ranges spelled as literals or bound as variables. The quick tier keeps a fixed core
+    (int elements: every macro x list/map range x 0..3 matches at the root, the empty ranges, filter keeping all /
+    some / none, some non-root contexts) plus a random sample of the rest."""
+    core, rest = [], []
+    S = lambda t: ["s", [ord(c) for c in t]]
+    ranges = []
+    for et, elems, thr in (("i", [["i", 1], ["i", 2], ["i", 3]], [["i", 4], ["i", 3], ["i", 2], ["i", 1]]),
+                           ("s", [S("a"), S("b"), S("c")], [S("d"), S("c"), S("b"), S("a")]),
+                           ("u", [["u", 1], ["u", 2], ["u", 3]], [["u", 4], ["u", 3], ["u", 2], ["u", 1]])):
+        ranges.append((et, elems, thr))
+        ranges.append((et, ["m", [[k, ["i", 10 + j]] for j, k in enumerate(elems)]], thr))
+        ranges.append((et, [], thr))
+        ranges.append((et, ["m", []], thr))
+    for et, rg, thr in ranges:
+        n = len(range_elems(rg))
+        bodies = [("const-true", ["lit", ["b", 1], "lit"]), ("const-false", ["lit", ["b", 0], "lit"])]
+        for k in range(4):
+            bodies.append((f"matches-{k}", ["rel", "ge", ["var", "x"], ["lit", thr[k], "lit"]]))
+        for tag, body in bodies:
+            main = et == "i" and (tag.startswith("matches") if n else tag == "const-true")
+            for kind in MACROS:
+                via = rng.choice(["lit", "var"])
+                m = ["macro", kind, rg, "x", body, et, via]
+                (core if main else rest).append(m)
+                ctxs = [["not", m], ["cond", m, ["lit", S("y"), "lit"], ["lit", S("n"), "lit"]],
+                        ["and", m, ["lit", ["b", 1], "lit"]], ["or", ["lit", ["b", 0], "lit"], m]]
+                if main and n and tag in ("matches-2", "matches-1"):
+                    core.append(ctxs[MACROS.index(kind) % 3])
+                    rest += [c for c in ctxs if c is not core[-1]]
+                else:
+                    rest += ctxs
+            via = rng.choice(["lit", "var"])
+            f = ["lmacro", "filter", rg, "x", body, et, via]
+            (core if et == "i" and tag in ("const-true", "matches-3", "matches-2", "matches-0") else rest).append(f)
+            rest.append(["size", f])
+            rest.append(["bin", "add", f, ["lit", ["l", []], "lit"]])
+        mp_body = {"i": ["bin", "add", ["var", "x"], ["lit", ["i", 1], "lit"]], "u": ["conv", "s", ["var", "x"]],
+                   "s": ["bin", "add", ["var", "x"], ["lit", S("!"), "lit"]]}[et]
+        for via in ("lit", "var"):
+            (core if et == "i" and via == "lit" else rest).append(["lmacro", "map", rg, "x", mp_body, et, via])
+            rest.append(["lmacro", "map", rg, "x", ["lit", ["z"], "lit"], et, via])
+    if quick:
+        return core + rng.sample(rest, 40)
+    return core + rest
+
+
 def canon_cls(v) -> str:
     from celpy import celtypes
     t = type(v)
@@ -597,7 +666,7 @@ class C13(Prop):
         g = Gen(rng)
         cases = []
         types = V.SCALARS + [("l", "i"), ("l", "s"), ("l", "d"), ("m", "s", "i"), ("l", ("l", "i"))]
-        n = 260 if quick else 4000
+        n = 170 if quick else 2500
         for i in range(n):
             t = rng.choice(types) if rng.random() < 0.5 else rng.choice(["i", "u", "d", "b", "b", "b", "s", "y", "t", "r"])
             e = g.expr(t, rng.choice([1, 1, 2, 2, 3, 4]))
@@ -618,6 +687,10 @@ class C13(Prop):
             for _ in range(3 if quick else 20):
                 roots.append(g.expr(t, 1))
         for e in roots:
+            for runner in ("I", "C"):
+                cases.append({"kind": "expr", "e": e, "runner": runner})
+        # macros over list and map ranges with 0..3 matching elements, in several contexts
+        for e in macro_family(rng, quick):
             for runner in ("I", "C"):
                 cases.append({"kind": "expr", "e": e, "runner": runner})
         # `type(x op y) == type(x)` evaluated inside CEL
